@@ -3,9 +3,11 @@
 //! usage: pvh <Cxx> <quick|thorough> [--replay <file>]
 //! env:   VERIF_SEED (default 1), VERIF_ROOT (default /verif)
 
+mod c03;
 mod c18;
 mod drive;
 mod gen_ast;
+mod refmodel;
 mod render;
 mod rng;
 mod verdict;
@@ -13,6 +15,9 @@ mod verdict;
 use verdict::{Ctx, Tier};
 
 fn main() {
+    // anyhow captures a backtrace per error when RUST_BACKTRACE is set; that takes a
+    // global lock and serialises the sweeps. The monitors never look at backtraces.
+    std::env::set_var("RUST_LIB_BACKTRACE", "0");
     let args: Vec<String> = std::env::args().collect();
     if args.len() < 3 {
         eprintln!("usage: pvh <Cxx> <quick|thorough> [--replay <file>]");
@@ -58,6 +63,7 @@ fn main() {
         });
         let case = if v.get("case").is_some() { v["case"].clone() } else { v };
         match prop {
+            "C03" => c03::replay(&mut ctx, &case),
             "C18" => c18::replay(&mut ctx, &case),
             _ => {
                 eprintln!("no replay for {prop}");
@@ -69,6 +75,7 @@ fn main() {
         std::process::exit(if n > 0 { 1 } else { 0 });
     }
     match prop {
+        "C03" => c03::run(&mut ctx),
         "C18" => c18::run(&mut ctx),
         _ => {
             eprintln!("unknown property {prop}");
